@@ -224,11 +224,13 @@ def _op_json(o):
 
 def klong_values(rng):
     vals = [0, -3, 17, 2.5, "", "abc", 'say "hi"', [1, 2, 3], [1.5, 2.5], [[1, 2], [3, 4]],
-            [1, [2, "x"]], []]
+            [1, [2, "x"]], [], {"a": 1}, {"k": "v", "n": 2}, {}]
     return rng.choice(vals)
 
 
 def _klit(v):
+    if isinstance(v, dict):
+        return ":{" + " ".join(f"[{_klit(k)} {_klit(x)}]" for k, x in v.items()) + "}"
     if isinstance(v, str):
         return '"' + v.replace('"', '""') + '"'
     if isinstance(v, list):
@@ -245,6 +247,8 @@ def canon(v):
         return [canon(x) for x in v.tolist()] if v.dtype != object else [canon(x) for x in v]
     if isinstance(v, (list, tuple)):
         return [canon(x) for x in v]
+    if isinstance(v, dict):
+        return {"dict": sorted((canon(k), canon(x)) for k, x in v.items())}
     if isinstance(v, (bool, np.bool_)):
         return int(v)
     if isinstance(v, (np.integer,)):
@@ -314,6 +318,16 @@ def run_klong_kvs(ctx, drv, nseq, length):
                         if k in oracle:
                             break
                     ctx.bump("kvs:get-hit" if k in oracle else "kvs:get-missing")
+                    if isinstance(exp, dict) and got == exp and ctx.rng.random() < 0.7:
+                        # a program updating the dictionary it got back must not change the store:
+                        # every get hands out the stored value, not a shared object
+                        mut = f'gg::kvs?"{k}";gg,"zz",,99'
+                        trace.append(mut)
+                        try:
+                            klong(mut)
+                        except Exception:
+                            pass
+                        ctx.bump("kvs:mutate-returned-dict")
                     if drv:
                         ev = sorted(before - set(store.cache.file_futures) - {k})
                         m = drv.ask(f"get name={k} ev={','.join(ev)}")
